@@ -44,6 +44,9 @@ CHECKS = {
     "C19": ("fault_enumeration", "runtime fault enumeration on the real binaries: invalid configurations x front-ends x package counts, broken target packages; exit status/stderr oracle; in-process re-entry of the analyzer's init latch",
             "Every invalid configuration of the property's list is run through go-critic, gocritic and both analysis binaries with 1, 2, (5,) 12 packages; the run must stop non-zero with a message naming the problem, without panic trace and without diagnostics, identically for every package count; nine kinds of broken target packages are analysed alone and mixed with healthy ones; concurrent re-entry after an init error is replayed in-process.",
             "targets that do not exist at all and -concurrency < 1 are outside the property's text", "5/C19"),
+    "C18": ("fault_enumeration", "runtime fault enumeration through linter.NewChecker on the registered ruleguard checker: sequences of rule files from a fault alphabet x failOn settings x enable/disable vectors; 12-line policy spec with don't-cares as oracle; CLI sample",
+            "Rule files {valid x3, unreadable (directory, dangling symlink), syntax error, DSL error, empty, unloadable import} are combined in sequences of length 1-4 and globs with every failOn setting (legacy boolean, unknown values) and enable/disable vectors over names and tags; init error vs success and exactly-one-diagnostic-per-surviving-group on a probe file are compared with the executable policy.",
+            "unreadable files under failOn=dsl are don't-care; the unloadable import only counts when its group passes the filter", "5/C18"),
 }
 
 PENDING = {}
